@@ -100,6 +100,9 @@ class Prop(BaseProp):
         ctx.expect(not np.shares_memory(st.spikes, arr), "alias:SpikeTrain(arr)", "SpikeTrain keeps a view of the caller's array")
         c = ctx.call(st.copy, _name="SpikeTrain.copy")
         ctx.expect(not np.shares_memory(st.spikes, c.spikes), "alias:SpikeTrain.copy", "copy shares memory with the original")
+        ctx.expect(np.array_equal(c.spikes, st.spikes) and c.t_start == st.t_start and c.t_end == st.t_end, "SpikeTrain.copy-not-equal",
+                   "copy() differs from the original: %s on [%r,%r] vs %s on [%r,%r]" % (common.short(c.spikes.tolist()), c.t_start, c.t_end,
+                                                                                       common.short(st.spikes.tolist()), st.t_start, st.t_end))
         x = np.array([ts, (ts + te) / 2, te])
         y = np.array([1.0, 2.0])
         for nm, mk in (("PieceWiseConstFunc", lambda: ps.PieceWiseConstFunc(x, y)), ("PieceWiseLinFunc", lambda: ps.PieceWiseLinFunc(x, y, y)),
